@@ -67,7 +67,7 @@ SPEC = dict(
                    'for the serialiser and the parser the hand model is now PROVED equal to the regenerated methods (trusted instead: the translator pydyn.py/pyobj.py, '
                    'PyTl.lean as the meaning of the Python operations, and the declared interface of tlengine.py: schema objects = table records, '
                    'type-string tests = their classification, fuel = recursion depth; validated against the library on ~4000 calls per change); '
-                   'the parser (deserialize) is tied the same way (declared in addition: bin() of the mode/flags value is read for ints only, the untouchables are the '
+                   'the parser (deserialize) is tied the same way (declared in addition: the untouchables are the '
                    'table\'s, the pseudo-schema call for a vector element of a base type does not count as a recursion level; ~5400 parses validated per change); '
                    'str.encode/decode = strict UTF-8, bytes.fromhex/hex inverse, tuple hash. Fuel = recursion depth: theorems hold for every '
                    'sufficiently large depth budget; normalize carries the same budget (its re-parses are the model parser on the content) and '
@@ -662,6 +662,21 @@ def run(ctx):
     if st == 'slow':
         ctx.fail('slow:vector-length', f'vector length 2^22 over 0 remaining bytes did not finish within {CAP:.0f}s', {'data': d.hex()}, f'> {CAP:.0f}s', 'fast')
     B.add(f'tldeser {d.hex()} 1', lambda out, line: None if (out == 'err') == (st == 'err') else ctx.corr_broken(f'vector bound: model {out} library {st}'))
+    B.flush()
+    bool_flags(ctx, B)
+
+
+def bool_flags(ctx, B):
+    """a flags word that is a Bool (`bin(True)` = '0b1', a bool is an int): model vs library on a table of its own (Drv/Tl.lean boolFlagTable)"""
+    for d in TE.bool_flag_inputs():
+        try:
+            want = 'ok' + TE.bool_flag_expected(d)
+        except Exception:
+            want = 'err'
+        ctx.case(('bool-flags', d.hex()), nontrivial=True)
+        ctx.count('bool-flags:' + want[:2])
+        B.add(f'tldeserx {d.hex()} 1', lambda out, line, want=want, d=d: None if out == want else
+              ctx.corr_broken(f'tldeserx (Bool flags word): model={out[:120]} library={want[:120]} data={d.hex()}'))
     B.flush()
 
 
